@@ -8,10 +8,12 @@ lengths agree within `ε`, `fage v` the age `calc_node_ages` assigns without for
 `fage` written at every node, `LocalOK ε t` every node's other children agree with its first child within `ε`,
 `Iso t u` equality up to the order of children anywhere.
 
-* `ages_spec`, `ages_exact_spec`, `age_is_tip_distance`, `reject_spec`, `reject_only_beyond_precision`,
+* `ages_spec`, `ages_exact_spec`, `age_is_tip_distance`, `reject_iff_local`, `accepted_bound`, `reject_beyond_bound`,
+  `reject_only_beyond_precision`,
   `check_disabled_spec`, `force_max_spec`, `force_min_spec`, `force_both_spec` — clause (a)/(b) for ages
-* `lengths_from_ages_roundtrip`, `lineages_spec`, `leaf_depths_spec` — clause (a)
-* `length_eq_def`, `sackin_eq_def`, `nbar_eq_def`, `colless_eq_def`, `b1_eq_def`, `treeness_eq_def`, `gamma_eq_def` — clause (c)
+* `lengths_from_ages_roundtrip_partial`, `lineages_spec`, `leaf_depths_spec`, `minmax_spec` — clause (a)
+* `length_eq_def`, `sackin_eq_def`, `nbar_eq_def`, `colless_eq_def`, `b1_eq_def`, `treeness_eq_def`, `gamma_loop_eq_sums`,
+  `gamma_eq_def_partial` — clause (c)
 * `stats_perm_invariant_partial` — child-order independence of all statistics except gamma (tested only). -/
 namespace DendroModel.C17.Aux
 open DendroModel DendroModel.C17
@@ -75,26 +77,94 @@ end
 
 mutual
 theorem depths_spec : ∀ (t : T) (d : Frac), d.WF → WFT t → NoNone t →
-    ∃ r, depths d t = .ok r ∧ (r.filter (·.2.1)).map (fun p => p.2.2.toRat) = (tipDists t).map (· + d.toRat)
-  | .node i x l s [], d, _, _, _ => ⟨[(i, true, d)], by simp [depths, depthsL], by simp [tipDists]⟩
+    ∃ r, depths d t = .ok r ∧ (r.filter (·.2.1)).map (fun p => p.2.2.toRat) = (tipDists t).map (· + d.toRat) ∧
+      ∀ p ∈ r, p.2.2.WF
+  | .node i x l s [], d, hd, _, _ => ⟨[(i, true, d)], by simp [depths, depthsL], by simp [tipDists], by simpa using hd⟩
   | .node i x l s (c :: cs), d, hd, hw, hn => by
-    obtain ⟨r, hr, hl⟩ := depthsL_spec (c :: cs) d hd hw.2 hn
-    exact ⟨(i, false, d) :: r, by simp [depths, hr], by simpa [tipDists] using hl⟩
+    obtain ⟨r, hr, hl, hwf⟩ := depthsL_spec (c :: cs) d hd hw.2 hn
+    refine ⟨(i, false, d) :: r, by simp [depths, hr], by simpa [tipDists] using hl, ?_⟩
+    intro p hp
+    rcases List.mem_cons.mp hp with rfl | hp'
+    · exact hd
+    · exact hwf p hp'
 theorem depthsL_spec : ∀ (cs : List T) (d : Frac), d.WF → WFTL cs → NoNoneL cs →
-    ∃ r, depthsL d cs = .ok r ∧ (r.filter (·.2.1)).map (fun p => p.2.2.toRat) = (tipDistsL cs).map (· + d.toRat)
-  | [], d, _, _, _ => ⟨[], by simp [depthsL], by simp [tipDistsL]⟩
+    ∃ r, depthsL d cs = .ok r ∧ (r.filter (·.2.1)).map (fun p => p.2.2.toRat) = (tipDistsL cs).map (· + d.toRat) ∧
+      ∀ p ∈ r, p.2.2.WF
+  | [], d, _, _, _ => ⟨[], by simp [depthsL], by simp [tipDistsL], by simp⟩
   | c :: cs, d, hd, hw, hn => by
     obtain ⟨⟨l, hl⟩, hnc, hncs⟩ := hn
     have hlw : l.WF := by have := WFT_len hw.1; rw [hl] at this; exact this
-    obtain ⟨r1, hr1, h1⟩ := depths_spec c (l + d) (Frac.add_wf _ _) hw.1 hnc
-    obtain ⟨r2, hr2, h2⟩ := depthsL_spec cs d hd hw.2 hncs
-    refine ⟨r1 ++ r2, by simp [depthsL, hl, hr1, hr2], ?_⟩
+    obtain ⟨r1, hr1, h1, w1⟩ := depths_spec c (l + d) (Frac.add_wf _ _) hw.1 hnc
+    obtain ⟨r2, hr2, h2, w2⟩ := depthsL_spec cs d hd hw.2 hncs
+    refine ⟨r1 ++ r2, by simp [depthsL, hl, hr1, hr2], ?_, ?_⟩
+    swap
+    · intro p hp
+      rcases List.mem_append.mp hp with h | h
+      · exact w1 p h
+      · exact w2 p h
     rw [List.filter_append, List.map_append, h1, h2, Frac.add_toRat hlw hd]
     simp only [tipDistsL, List.map_append, List.map_map, qlen, hl, olen]
     congr 1
     apply List.map_congr_left
     intro a _; simp only [Function.comp]; ring
 end
+
+def isBif (v : T) : Bool := v.cs.length == 2
+
+mutual
+theorem specAges_annot : ∀ t : T,
+    (specAges (annot t)).1.Perm (((T.nodes t).filter isBif).map fage) ∧
+    (specAges (annot t)).2 = ((T.nodes t).filter (fun v => !isBif v)).length
+  | .node i x l s cs => by
+    obtain ⟨h1, h2⟩ := specAgesL_annot cs
+    have hlen : (annotL cs).length = cs.length := by
+      clear h1 h2; induction cs with
+      | nil => rfl
+      | cons c cs ih => simp [annotL, ih]
+    have hb0 : isBif (.node i x l s cs) = (cs.length == 2) := rfl
+    simp only [annot, specAges, hlen, nodes_node, List.filter_cons, hb0]
+    by_cases hb : (cs.length == 2) = true
+    · simp only [hb, if_true, Bool.not_true, Bool.false_eq_true, if_false, List.map_cons]
+      exact ⟨(List.perm_append_comm).trans (h1.cons _), h2⟩
+    · simp only [hb, if_false, Bool.false_eq_true, Bool.not_false, if_true, List.length_cons]
+      exact ⟨h1, by rw [h2]⟩
+theorem specAgesL_annot : ∀ cs : List T,
+    (specAgesL (annotL cs)).1.Perm (((T.nodesL cs).filter isBif).map fage) ∧
+    (specAgesL (annotL cs)).2 = ((T.nodesL cs).filter (fun v => !isBif v)).length
+  | [] => by simp [annotL, specAgesL, T.nodesL]
+  | c :: cs => by
+    obtain ⟨h1, h2⟩ := specAges_annot c
+    obtain ⟨g1, g2⟩ := specAgesL_annot cs
+    simp only [annotL, specAgesL, T.nodesL, List.filter_append, List.map_append, List.length_append]
+    exact ⟨h1.append g1, by rw [h2, g2]⟩
+end
+
+theorem gammaSignedSq_spec {num tt : Frac} {n : Nat} (hn : num.WF) (ht : tt.WF) {r : Frac}
+    (h : gammaSignedSq (num, tt, n) = .ok r) :
+    tt.toRat ≠ 0 ∧ r.toRat = (if num.toRat < 0 then -1 else 1) * (num.toRat ^ 2 * (12 * ((n - 2 : ℕ) : ℚ)) / tt.toRat ^ 2) := by
+  unfold gammaSignedSq at h
+  simp only at h
+  split at h
+  · cases h
+  · rename_i hz
+    have hz' : tt.toRat ≠ 0 := fun h0 => hz ((Frac.isZero_iff ht).mpr h0)
+    simp only [Except.ok.injEq] at h
+    have hsq : (Frac.div (num * num * Frac.ofNat (12 * (n - 2))) (tt * tt)).toRat
+        = num.toRat ^ 2 * (12 * ((n - 2 : ℕ) : ℚ)) / tt.toRat ^ 2 := by
+      rw [Frac.div_toRat (Frac.mul_wf _ _) (Frac.mul_wf _ _), Frac.mul_toRat (Frac.mul_wf _ _) (Frac.ofNat_wf _),
+        Frac.mul_toRat hn hn, Frac.mul_toRat ht ht, Frac.ofNat_toRat]
+      push_cast; ring
+    refine ⟨hz', ?_⟩
+    by_cases hlt : Frac.lt num Frac.zero = true
+    · have := (Frac.lt_iff hn Frac.zero_wf).mp hlt
+      rw [Frac.zero_toRat] at this
+      simp only [hlt, if_true] at h
+      rw [← h, Frac.neg_toRat, hsq]; simp [this]
+    · have hf : Frac.lt num Frac.zero = false := by simpa using hlt
+      have := (Frac.lt_false_iff hn Frac.zero_wf).mp hf
+      rw [Frac.zero_toRat] at this
+      simp only [hf, Bool.false_eq_true, if_false] at h
+      rw [← h, hsq]; simp [not_lt.mpr this]
 
 end DendroModel.C17.Aux
 
@@ -122,8 +192,9 @@ theorem ages_spec {cfg : Cfg} {p : Frac} (t : T) (hw : WFT t) (hp : p.WF) (hc : 
 /-- On an exactly ultrametric tree every node's age *equals* its distance to every descendant tip, whatever
 non-negative precision is in force. -/
 theorem ages_exact_spec {cfg : Cfg} {p : Frac} (t : T) (hw : WFT t) (hp : p.WF) (hc : cfg.checking = some p)
-    (hp0 : 0 ≤ p.toRat) (hu : Within 0 t) :
+    (hu : Within 0 t) :
     calcNodeAges cfg t = .ok (annot t) ∧ ∀ v ∈ T.nodes t, ∀ d ∈ tipDists v, (fage v).toRat = d := by
+  have hp0 : 0 ≤ p.toRat := checking_nonneg hp hc
   have hu' : Within p.toRat t := fun d hd d' hd' => le_trans (hu d hd d' hd') hp0
   refine ⟨(ages_spec t hw hp hc hu').1, ?_⟩
   intro v hv d hd
@@ -133,20 +204,72 @@ theorem ages_exact_spec {cfg : Cfg} {p : Frac} (t : T) (hw : WFT t) (hp : p.WF) 
   have h0 := abs_nonpos_iff.mp this
   linarith
 
-/-- Whenever ages are assigned without forcing, a node's age is the length of an actual path to one of its
-descendant tips (the first-child chain). -/
-theorem age_is_tip_distance (v : T) (hw : WFT v) : (fage v).toRat ∈ tipDists v := by
-  rw [fage_toRat v hw]; exact fageQ_mem v
+/-- Whenever `calc_node_ages` succeeds without a forcing option (check in force or disabled), the result is the
+tree annotated with first-child-chain ages, and every node's age is the length of an actual path to one of its
+descendant tips. -/
+theorem age_is_tip_distance {cfg : Cfg} (t : T) (hw : WFT t) (h1 : cfg.forceMax = false) (h2 : cfg.forceMin = false)
+    {a : AT} (h : calcNodeAges cfg t = .ok a) :
+    a = annot t ∧ a.ages = (T.nodes t).map (fun v => (v.id, fage v)) ∧
+    ∀ v ∈ T.nodes t, (fage v).toRat ∈ tipDists v := by
+  rw [calcNodeAges_nonforce h1 h2] at h
+  have ha : a = annot t := by
+    split at h
+    · exact (Except.ok.inj h).symm
+    · cases h
+  refine ⟨ha, by rw [ha]; exact annot_ages t, ?_⟩
+  intro v hv
+  rw [fage_toRat v (nodes_wft t hw v hv)]; exact fageQ_mem v
 
-/-- Acceptance and rejection on both sides of every precision: with the check in force the run is rejected with
-an ultrametricity error iff at some node some other child's (age + length) differs from the first child's by
-more than `p`, and otherwise succeeds with the first-child-chain ages. -/
-theorem reject_spec {cfg : Cfg} {p : Frac} (t : T) (hw : WFT t) (hp : p.WF) (hc : cfg.checking = some p) :
+/-- The exact acceptance criterion of the code, in ℚ: with the check in force the run is rejected with an
+ultrametricity error iff at some node some other child's (first-child-chain age + length) differs from the first
+child's by more than `p`, and otherwise succeeds with the first-child-chain ages.  (This is the code's *local*
+comparison; what it means for path lengths is `ages_spec`, `accepted_bound`, `reject_beyond_bound` and
+`reject_only_beyond_precision`.) -/
+theorem reject_iff_local {cfg : Cfg} {p : Frac} (t : T) (hw : WFT t) (hp : p.WF) (hc : cfg.checking = some p) :
     (calcNodeAges cfg t = .error .ultra ↔ ¬ LocalOK p.toRat t) ∧
     (calcNodeAges cfg t = .ok (annot t) ↔ LocalOK p.toRat t) := by
   obtain ⟨h1, h2⟩ := checking_some hc
   rw [calcNodeAges_nonforce h1 h2, hc, ← allWithin_iff hp t hw]
   by_cases h : allWithin (some p) t = true <;> simp [h]
+
+/-- Whatever is accepted is close to ultrametric: if `calc_node_ages` succeeds with the check in force at precision
+`p`, then at every node the assigned age differs from the distance to each descendant tip by at most
+`height · p` (deviations can accumulate by at most `p` per level). -/
+theorem accepted_bound {cfg : Cfg} {p : Frac} (t : T) (hw : WFT t) (hp : p.WF) (hc : cfg.checking = some p)
+    {a : AT} (h : calcNodeAges cfg t = .ok a) :
+    a = annot t ∧ ∀ v ∈ T.nodes t, ∀ d ∈ tipDists v, |(fage v).toRat - d| ≤ (height v : ℚ) * p.toRat := by
+  obtain ⟨h1, h2⟩ := checking_some hc
+  have ha := (age_is_tip_distance t hw h1 h2 h).1
+  have hloc : LocalOK p.toRat t := ((reject_iff_local t hw hp hc).2).mp (by rw [h, ha])
+  refine ⟨ha, ?_⟩
+  intro v hv d hd
+  rw [fage_toRat v (nodes_wft t hw v hv)]
+  exact localOK_bound (checking_nonneg hp hc) v (LocalOK_nodes t hloc v hv) d hd
+
+/-- Sufficient condition for rejection in terms of path lengths: two root-to-tip paths differing by more than
+`2 · height · p` force an ultrametricity error.  (The literal "differ by more than `p` ⇒ rejected" is false of the
+code: `((A:1,B:2):1,C:1)` at `p = 1` is accepted — see the example below and the known finding.) -/
+theorem reject_beyond_bound {cfg : Cfg} {p : Frac} (t : T) (hw : WFT t) (hp : p.WF) (hc : cfg.checking = some p)
+    {d d' : ℚ} (hd : d ∈ tipDists t) (hd' : d' ∈ tipDists t) (hfar : 2 * (height t : ℚ) * p.toRat < |d - d'|) :
+    calcNodeAges cfg t = .error .ultra := by
+  obtain ⟨h1, h2⟩ := checking_some hc
+  rw [calcNodeAges_nonforce h1 h2]
+  split
+  · rename_i hall
+    exfalso
+    have hok : calcNodeAges cfg t = .ok (annot t) := by rw [calcNodeAges_nonforce h1 h2, if_pos hall]
+    have hb := (accepted_bound t hw hp hc hok).2 t (by cases t; simp [T.nodes])
+    have b1 := hb d hd
+    have b2 := hb d' hd'
+    have : |d - d'| ≤ 2 * (height t : ℚ) * p.toRat := by
+      have e : d - d' = ((fage t).toRat - d') - ((fage t).toRat - d) := by ring
+      rw [e]
+      calc |((fage t).toRat - d') - ((fage t).toRat - d)|
+          ≤ |(fage t).toRat - d'| + |(fage t).toRat - d| := abs_sub _ _
+        _ ≤ (height t : ℚ) * p.toRat + (height t : ℚ) * p.toRat := add_le_add b2 b1
+        _ = 2 * (height t : ℚ) * p.toRat := by ring
+    linarith
+  · rfl
 
 /-- A tree is rejected only if its root-to-tip paths really differ by more than the precision. -/
 theorem reject_only_beyond_precision {cfg : Cfg} {p : Frac} (t : T) (hw : WFT t) (hp : p.WF)
@@ -192,13 +315,15 @@ theorem force_both_spec (prec : Option Frac) (t : T) : calcNodeAges ⟨prec, tru
   simp [calcNodeAges]
 
 /-- Setting edge lengths from the ages computed on an exactly ultrametric tree with non-negative lengths (minimum
-length `None` or ≤ 0, either error flag) restores every edge length (`None` read as 0); ids and order are kept. -/
-theorem lengths_from_ages_roundtrip {cfg : Cfg} {p : Frac} (minLen : Option Frac) (errNeg : Bool) (t : T)
-    (hw : WFT t) (hp : p.WF) (hc : cfg.checking = some p) (hp0 : 0 ≤ p.toRat) (hu : Within 0 t)
+length `None` or ≤ 0, either error flag) restores every edge length (`None` read as 0); ids and order are kept.
+`_partial`: exact ultrametricity only — on a tree that is merely within a precision `p > 0` the lengths of
+non-first children come back changed by up to `p` (covered by the correspondence and the oracle only). -/
+theorem lengths_from_ages_roundtrip_partial {cfg : Cfg} {p : Frac} (minLen : Option Frac) (errNeg : Bool) (t : T)
+    (hw : WFT t) (hp : p.WF) (hc : cfg.checking = some p) (hu : Within 0 t)
     (hnn : NonNeg t) (hm : MinOK minLen) :
     ∃ a a', calcNodeAges cfg t = .ok a ∧ setLens minLen errNeg a = .ok a' ∧ atLens a' = tLens t := by
   refine ⟨annot t, ?_⟩
-  have hcalc := (ages_exact_spec t hw hp hc hp0 hu).1
+  have hcalc := (ages_exact_spec t hw hp hc hu).1
   have hloc : LocalOK 0 t := LocalOK_of_Within t hu
   match t, hw, hloc, hnn, hcalc with
   | .node i x l s cs, hw, hloc, hnn, hcalc =>
@@ -230,8 +355,36 @@ theorem lineages_spec (d : Frac) (hd : d.WF) (t : T) (hpos : Pos t) :
 upwards, leaves in left-to-right order (no `None` length below the root). -/
 theorem leaf_depths_spec (t : T) (hw : WFT t) (hn : NoNone t) :
     ∃ r, rootDepths t = .ok r ∧ (r.filter (·.2.1)).map (fun p => p.2.2.toRat) = tipDists t := by
-  obtain ⟨r, hr, hl⟩ := depths_spec t Frac.zero Frac.zero_wf hw hn
+  obtain ⟨r, hr, hl, _⟩ := depths_spec t Frac.zero Frac.zero_wf hw hn
   exact ⟨r, hr, by simpa [Frac.zero_toRat] using hl⟩
+
+/-- `minmax_leaf_distance_from_root` / `max_distance_from_root`: the two values are root-to-tip path lengths and
+bound every root-to-tip path length from below and above (no `None` length below the root). -/
+theorem minmax_spec (t : T) (hw : WFT t) (hn : NoNone t) :
+    ∃ mn mx, minmaxLeafDist t = .ok (mn, mx) ∧ mn.toRat ∈ tipDists t ∧ mx.toRat ∈ tipDists t ∧
+      ∀ d ∈ tipDists t, mn.toRat ≤ d ∧ d ≤ mx.toRat := by
+  obtain ⟨r, hr, hl, hwf⟩ := depths_spec t Frac.zero Frac.zero_wf hw hn
+  have hmap : ((r.filter (·.2.1)).map (·.2.2)).map Frac.toRat = tipDists t := by
+    rw [List.map_map]
+    have : (Frac.toRat ∘ fun (x : Nat × Bool × Frac) => x.2.2) = fun p => p.2.2.toRat := rfl
+    rw [this]; simpa [Frac.zero_toRat] using hl
+  have hL : ∀ x ∈ (r.filter (·.2.1)).map (·.2.2), x.WF := by
+    intro x hx
+    obtain ⟨p, hp, rfl⟩ := List.mem_map.mp hx
+    exact hwf p (List.mem_filter.mp hp).1
+  cases hc : (r.filter (·.2.1)).map (·.2.2) with
+  | nil => rw [hc] at hmap; exact absurd hmap.symm (tipDists_ne_nil t)
+  | cons x xs =>
+    rw [hc] at hmap hL
+    have hx := hL x List.mem_cons_self
+    have hxs : ∀ y ∈ xs, y.WF := fun y hy => hL y (List.mem_cons_of_mem _ hy)
+    refine ⟨minList x xs, maxList x xs, by simp [minmaxLeafDist, rootDepths, hr, hc], ?_, ?_, ?_⟩
+    · rw [← hmap]; exact List.mem_map.mpr ⟨_, minList_mem xs x, rfl⟩
+    · rw [← hmap]; exact List.mem_map.mpr ⟨_, maxList_mem xs x, rfl⟩
+    · intro d hd
+      rw [← hmap] at hd
+      obtain ⟨y, hy, rfl⟩ := List.mem_map.mp hd
+      exact ⟨minList_le xs x hx hxs y hy, maxList_ge xs x hx hxs y hy⟩
 
 /-! ## clause (c): statistics equal their definitions -/
 
@@ -322,10 +475,10 @@ theorem treeness_eq_def (t : T) (hw : WFT t) (hn : NoNone t) :
       refine ⟨Frac.div i (e + i), by simp [treeness, T.cs, h, fdiv, this], ?_⟩
       rw [Frac.div_toRat hi (Frac.add_wf _ _), hsum, hiq]
 
-/-- Pybus–Harvey gamma: the loop with its two accumulators computes `T' = Σ_{k} (k+2) g_k` and the double sum
+/-- Pybus–Harvey gamma, the loop alone (any list of intervals): its two accumulators compute `T' = Σ_{k} (k+2) g_k` and the double sum
 `Σ_{i} Σ_{k ≤ i} (k+2) g_k` over the intervals handed to it (indices from 0 here, i.e. `g_k` of the paper is
 `gs[k-2]`). -/
-theorem gamma_eq_def (gs : List Frac) (hg : ∀ g ∈ gs, g.WF) :
+theorem gamma_loop_eq_sums (gs : List Frac) (hg : ∀ g ∈ gs, g.WF) :
     (gammaLoop 2 gs Frac.zero Frac.zero).1.toRat
       = ∑ j ∈ Finset.range gs.length, ((2 + j : ℕ) : ℚ) * (gs.map Frac.toRat).getD j 0 ∧
     (gammaLoop 2 gs Frac.zero Frac.zero).2.toRat
@@ -333,6 +486,58 @@ theorem gamma_eq_def (gs : List Frac) (hg : ∀ g ∈ gs, g.WF) :
   obtain ⟨_, _, h3, h4⟩ := gammaLoop_spec gs 2 Frac.zero Frac.zero hg Frac.zero_wf Frac.zero_wf
   rw [h3, h4, Frac.zero_toRat, wsum_eq_sum, dsum_eq_sum]
   simp
+
+/-- Pybus–Harvey gamma end to end.  If `pybus_harvey_gamma` returns a value then, with `S` the ages of the
+bifurcating nodes sorted in descending order and `g_j = S_j − S_{j+1}` (`S_len = 0`) the waiting times between
+consecutive speciation events, `n` the number of non-bifurcating nodes (the leaves, on a binary tree):
+`T = Σ_{j=0}^{n-2} (j+2) g_j`, the numerator is `(1/(n−2)) Σ_{m<n−2} Σ_{j≤m} (j+2) g_j − T/2`, and the returned value
+is `sign(num) · num² · 12(n−2) / T²` (= `γ·|γ|`; the square root stays outside the model).
+`_partial`: not proved that `g_j` is the time during which the tree has `j+2` lineages (`num_lineages_at`), nor that
+`S`'s node ages are tip distances here (that is `ages_exact_spec`). -/
+theorem gamma_eq_def_partial (prec : Option Frac) (t : T) {r : Frac} (h : gamma prec t = .ok r) :
+    ∃ (num tt : Frac) (n : Nat),
+      (sortDesc (specAges (annot t)).1).Perm (((T.nodes t).filter isBif).map fage) ∧
+      Desc (sortDesc (specAges (annot t)).1) ∧
+      (∀ j, ((intervals (sortDesc (specAges (annot t)).1)).map Frac.toRat).getD j 0
+        = ((sortDesc (specAges (annot t)).1).map Frac.toRat).getD j 0
+          - ((sortDesc (specAges (annot t)).1).map Frac.toRat).getD (j + 1) 0) ∧
+      n = ((T.nodes t).filter (fun v => !isBif v)).length ∧
+      ((intervals (sortDesc (specAges (annot t)).1)).map Frac.toRat).length + 1 = n ∧ 3 ≤ n ∧
+      tt.toRat = ∑ j ∈ Finset.range ((intervals (sortDesc (specAges (annot t)).1)).map Frac.toRat).length,
+        ((2 + j : ℕ) : ℚ) * ((intervals (sortDesc (specAges (annot t)).1)).map Frac.toRat).getD j 0 ∧
+      num.toRat = (∑ m ∈ Finset.range ((intervals (sortDesc (specAges (annot t)).1)).dropLast.map Frac.toRat).length,
+          ∑ j ∈ Finset.range (m + 1),
+            ((2 + j : ℕ) : ℚ) * ((intervals (sortDesc (specAges (annot t)).1)).dropLast.map Frac.toRat).getD j 0)
+          / ((n : ℚ) - 2) - tt.toRat / 2 ∧
+      tt.toRat ≠ 0 ∧
+      r.toRat = (if num.toRat < 0 then -1 else 1) * (num.toRat ^ 2 * (12 * ((n - 2 : ℕ) : ℚ)) / tt.toRat ^ 2) := by
+  unfold gamma at h
+  rw [calcNodeAges_nonforce rfl rfl] at h
+  by_cases hall : allWithin (Cfg.checking ⟨prec, false, false⟩) t = true
+  · rw [if_pos hall] at h
+    simp only at h
+    cases hg : gammaParts (annot t) with
+    | error e => rw [hg] at h; cases h
+    | ok parts =>
+      obtain ⟨num, tt, n⟩ := parts
+      rw [hg] at h
+      simp only at h
+      obtain ⟨hperm, hcount⟩ := specAges_annot t
+      have hwfS : ∀ x ∈ (specAges (annot t)).1, x.WF := by
+        intro x hx
+        obtain ⟨v, _, rfl⟩ := List.mem_map.mp (hperm.subset hx)
+        exact fage_wf v
+      obtain ⟨hn, hlen, hn3, htt, hnum⟩ := gammaParts_spec (annot t) hwfS hg
+      obtain ⟨wn, wt⟩ := gammaParts_wf (annot t) hg
+      obtain ⟨hz, hr⟩ := gammaSignedSq_spec wn wt h
+      have hwfSorted : ∀ x ∈ sortDesc (specAges (annot t)).1, x.WF :=
+        fun x hx => hwfS x ((sortDesc_perm _).subset hx)
+      refine ⟨num, tt, n, (sortDesc_perm _).trans hperm, sortDesc_desc _ hwfS,
+        intervals_getD _ hwfSorted, by rw [hn, hcount], hlen, hn3, ?_, ?_, hz, hr⟩
+      · rw [htt, wsum_eq_sum]
+      · rw [hnum, dsum_eq_sum]
+  · rw [if_neg hall] at h
+    cases h
 
 /-! ## child-order independence -/
 
@@ -345,7 +550,9 @@ theorem stats_perm_invariant_partial {t u : T} (h : Iso t u) :
     (∀ norm, colless norm t = colless norm u) ∧
     (b1 t).toRat = (b1 u).toRat ∧
     (WFT t → WFT u ∧ (C17.length t).toRat = (C17.length u).toRat) ∧
-    (intLenL t.cs / (extLenL t.cs + intLenL t.cs) = intLenL u.cs / (extLenL u.cs + intLenL u.cs)) := by
+    (WFT t → NoNone t →
+      (treeness t = .error .zerodiv ∧ treeness u = .error .zerodiv) ∨
+      (∃ r r', treeness t = .ok r ∧ treeness u = .ok r' ∧ r.toRat = r'.toRat)) := by
   have hla : leafAnc 0 t = leafAnc 0 u := congrFun (leafAncStat.invariant h) 0
   have hnl : nLeaves t = nLeaves u := nLeavesStat.invariant h
   have hcol : collessAcc t = collessAcc u := by
@@ -360,7 +567,21 @@ theorem stats_perm_invariant_partial {t u : T} (h : Iso t u) :
     have hwe : WFT t = WFT u := wftStat.invariant h
     have hwu : WFT u := by rw [← hwe]; exact hw
     exact ⟨hwu, by rw [(length_spec t hw).2, (length_spec u hwu).2]; exact lengthStat.invariant h⟩
-  · rw [htr.1, htr.2]
+  · intro hw hn
+    have hwe : WFT t = WFT u := wftStat.invariant h
+    have hwu : WFT u := by rw [← hwe]; exact hw
+    have hnu : NoNone u := by
+      have hL : NoNoneL t.cs = NoNoneL u.cs := noNoneStat.invariantL h
+      cases t; cases u
+      simp only [NoNone, T.cs] at hn hL ⊢
+      rw [← hL]; exact hn
+    obtain ⟨t0, t1⟩ := treeness_eq_def t hw hn
+    obtain ⟨u0, u1⟩ := treeness_eq_def u hwu hnu
+    by_cases hz : extLenL t.cs + intLenL t.cs = 0
+    · exact Or.inl ⟨t0 hz, u0 (by rw [← htr.1, ← htr.2]; exact hz)⟩
+    · obtain ⟨r, hr, hrq⟩ := t1 hz
+      obtain ⟨r', hr', hrq'⟩ := u1 (by rw [← htr.1, ← htr.2]; exact hz)
+      exact Or.inr ⟨r, r', hr, hr', by rw [hrq, hrq', htr.1, htr.2]⟩
 
 /-! ## non-vacuity: the hypotheses above are satisfiable -/
 
@@ -386,6 +607,16 @@ example : Iso exTree (.node 0 none none none
     [.node 4 (some 2) (some ⟨2, 1⟩) none [],
      .node 1 none (some ⟨1, 1⟩) none [.node 2 (some 0) (some ⟨1, 1⟩) none [], .node 3 (some 1) (some ⟨1, 1⟩) none []]]) :=
   Iso.swap 0 none none none [] _ _ []
+
+/-- accumulated drift: `((A:1,B:2):1,C:1)` at precision 1 is accepted although its root-to-tip paths (2, 3, 1) differ
+by 2 — `accepted_bound` allows `height · p = 2` (known finding `ultrametricity-drift-accumulates`) -/
+example : ∃ a, calcNodeAges ⟨some Frac.one, false, false⟩
+    (.node 0 none none none
+      [.node 1 none (some ⟨1, 1⟩) none [.node 2 (some 0) (some ⟨1, 1⟩) none [], .node 3 (some 1) (some ⟨2, 1⟩) none []],
+       .node 4 (some 2) (some ⟨1, 1⟩) none []]) = .ok a := ⟨_, rfl⟩
+
+/-- `gamma` really returns a value: `((A:1,B:1):1,C:2)` gives γ·|γ| = −3/25 at precision 0 -/
+example : gamma (some Frac.zero) exTree = .ok ⟨-3, 25⟩ := by rfl
 
 /-- rejection really happens: `(A:1,B:3)` at precision 1 -/
 example : calcNodeAges ⟨some Frac.one, false, false⟩
